@@ -42,6 +42,7 @@ fn cmd_sim(args: &[String]) -> i32 {
             "nat" => gen::gen_nat(seed, n),
             "codec" => gen::gen_codec(seed, n),
             "fuzzloop" => gen::gen_fuzzloop(seed, n),
+            "cfgrun" => gen::gen_cfgrun(seed, n),
             f => {
                 eprintln!("unknown family {f}");
                 return 2;
